@@ -18,7 +18,7 @@ func init() {
 			"C04.immutable: no write at all to Index, schema, column or the column getters; C04.noargwrite: no write to the caller's Query/expression tree; " +
 			"C04.globals: no write to package-level variables, and append on a package-level slice only if its capacity equals its length forever; " +
 			"C04.inplace (= C03.pure: stored, preloaded and cached bitmaps are shared by concurrent queries without a lock of their own, so every mutating roaring method must have a receiver created by the calling function); " +
-			"C04.views: bbolt is used only through read-only transactions. Together: race freedom of updog's own memory for every interleaving. " +
+			"C04.views: bbolt is used only through read-only transactions; C04.lockbalance: every mutex field a reachable function acquires is released (directly or by a deferred unlock registered on that path) on every path to every return, so no call leaves a lock behind that blocks all later calls. Together: race freedom of updog's own memory for every interleaving. " +
 			"NOT decided: that every call returns exactly the sequential result (follows from race freedom + C03.pure + determinism of roaring; not checked as such); thread-safety of concurrent reads inside roaring, bbolt read transactions and prometheus metrics (trusted).",
 		assumptions: []string{"sync.Mutex/RWMutex semantics", "concurrent reads of roaring bitmaps and bbolt read transactions are safe (dependencies)", "call graph over-approximates"},
 	})
@@ -60,6 +60,7 @@ func runC04(c *Ctx) {
 	// bitmaps handed out by the getters and caches are shared between concurrent queries without any lock: mutating one in
 	// place is a data race whatever mutex the mutating code happens to hold
 	c03PureAs(c, "C04.inplace")
+	lockBalanceRule(c, "C04.lockbalance", entries...) // a query that returns with a mutex held blocks every later query: "every call returns"
 	c.r.expect("C04.guarded", 4)
 	c.r.expect("C04.immutable", 10)
 }
